@@ -197,6 +197,108 @@ theorem lruScan_found_keys (wall : Int) : ∀ (keys : List Key) (s : Scan) (req 
         · exact h1 kv h.1
       · exact lruScan_found_keys wall ks _ req h1 hmiss hks
 
+/-- a key is absent from the layer or expired there. -/
+def Gone (wall : Int) (e0 : KV) (k : Key) : Prop := aGet k e0 = none ∨ ∃ it, aGet k e0 = some it ∧ ¬ wall < it.exp
+
+/-- keys the scan reports as missing are absent from the layer or expired there. -/
+theorem lruScan_miss (wall : Int) (e0 : KV) : ∀ (keys : List Key) (s : Scan),
+    (∀ k it, aGet k s.ents = some it → aGet k e0 = some it) →
+    (∀ k, aGet k s.ents = none → Gone wall e0 k) →
+    (∀ k ∈ s.miss, Gone wall e0 k) →
+    ∀ k ∈ (lruScan wall keys s).miss, Gone wall e0 k
+  | [], s, _, _, h3 => h3
+  | k :: ks, s, h1, h2, h3 => by
+    simp only [lruScan]
+    split
+    · rename_i hnone
+      refine lruScan_miss wall e0 ks { s with miss := s.miss ++ [k] } h1 h2 ?_
+      intro k' hk'
+      rcases List.mem_append.mp hk' with h | h
+      · exact h3 _ h
+      · simp only [List.mem_singleton] at h; subst h; exact h2 _ hnone
+    · rename_i it hit
+      split
+      · apply lruScan_miss wall e0 ks
+        · intro k2 it2 hg
+          rw [aGet_aPut] at hg
+          split at hg
+          · rename_i hk; subst hk; simp only [Option.some.injEq] at hg; subst hg; exact h1 _ _ hit
+          · exact h1 _ _ hg
+        · intro k2 hg
+          rw [aGet_aPut] at hg
+          split at hg
+          · simp at hg
+          · exact h2 _ hg
+        · exact h3
+      · rename_i hexp
+        have hk : Gone wall e0 k := Or.inr ⟨it, h1 _ _ hit, hexp⟩
+        apply lruScan_miss wall e0 ks
+        · intro k2 it2 hg
+          rw [aGet_aDel] at hg
+          split at hg
+          · simp at hg
+          · exact h1 _ _ hg
+        · intro k2 hg
+          rw [aGet_aDel] at hg
+          split at hg
+          · rename_i hkk; subst hkk; exact hk
+          · exact h2 _ hg
+        · intro k' hk'
+          rcases List.mem_append.mp hk' with h | h
+          · exact h3 _ h
+          · simp only [List.mem_singleton] at h; subst h; exact hk
+
+/-- after the scan every requested key still in the layer is within its deadline. -/
+theorem lruScan_live (wall : Int) : ∀ (keys : List Key) (s : Scan) (S : List Key),
+    (∀ k ∈ S, ∀ it, aGet k s.ents = some it → wall < it.exp) →
+    ∀ k, (k ∈ S ∨ k ∈ keys) → ∀ it, aGet k (lruScan wall keys s).ents = some it → wall < it.exp
+  | [], s, S, h, k, hk, it, hg => by
+    rcases hk with hk | hk
+    · exact h k hk it hg
+    · simp at hk
+  | k0 :: ks, s, S, h, k, hk, it, hg => by
+    have hk' : k ∈ k0 :: S ∨ k ∈ ks := by
+      rcases hk with hk | hk
+      · exact Or.inl (List.mem_cons_of_mem _ hk)
+      · rcases List.mem_cons.mp hk with h1 | h1
+        · exact Or.inl (h1 ▸ List.mem_cons_self)
+        · exact Or.inr h1
+    simp only [lruScan] at hg
+    split at hg
+    · rename_i hnone
+      refine lruScan_live wall ks _ (k0 :: S) ?_ k hk' it hg
+      intro k2 hk2 it2 hg2
+      rcases List.mem_cons.mp hk2 with h1 | h1
+      · subst h1; simp only [] at hg2; rw [hnone] at hg2; simp at hg2
+      · exact h k2 h1 it2 hg2
+    · rename_i it0 hit
+      split at hg
+      · rename_i hlive
+        refine lruScan_live wall ks _ (k0 :: S) ?_ k hk' it hg
+        intro k2 hk2 it2 hg2
+        simp only [] at hg2
+        rw [aGet_aPut] at hg2
+        split at hg2
+        · simp only [Option.some.injEq] at hg2; subst hg2; exact hlive
+        · rename_i hne
+          rcases List.mem_cons.mp hk2 with h1 | h1
+          · exact absurd h1 hne
+          · exact h k2 h1 it2 hg2
+      · refine lruScan_live wall ks _ (k0 :: S) ?_ k hk' it hg
+        intro k2 hk2 it2 hg2
+        simp only [] at hg2
+        rw [aGet_aDel] at hg2
+        split at hg2
+        · simp at hg2
+        · rename_i hne
+          rcases List.mem_cons.mp hk2 with h1 | h1
+          · exact absurd h1 hne
+          · exact h k2 h1 it2 hg2
+
+/-- a pair in a result map gives its key in the key list. -/
+theorem mem_keys_of_mem {k : Key} {v : α} {m : List (Key × α)} (h : (k, v) ∈ m) : k ∈ m.map (·.1) :=
+  List.mem_map.mpr ⟨(k, v), h, rfl⟩
+
 /-! ### folds of `aPut` (result maps) -/
 
 theorem mem_foldl_aPut {β : Type} (g : β → Key × α) : ∀ (l : List β) (acc : List (Key × α)) (e : Key × α),
